@@ -276,13 +276,25 @@ Definition conns_with_rep (w : world) (p : pod) (nsl : labels) (r : rep) (ingres
 
 (* ---------- the pod's exposure data ---------- *)
 (* checkAndConvertNamedPortsInConnection *)
+Definition drop_empty_protocols (c : connset) : connset :=
+  cs_map (fun _ mine => match mine with
+                        | Some ps => if ps_isempty ps then None else Some ps
+                        | None => None
+                        end) c.
 Definition convert_named (p : pod) (c : connset) : connset :=
-  fold_left (fun acc pn =>
-               fold_left (fun acc2 nm =>
-                            match pod_named_port (p_ports p) nm with
-                            | Some (pr, n) => if proto_eqb pr (fst pn) && negb (n =? NoPort) then cs_replace_named acc2 (fst pn) nm n else acc2
-                            | None => acc2
-                            end) (snd pn) acc) (cs_named_ports c) c.
+  match cs_named_ports c with
+  | [] => c
+  | named =>
+      drop_empty_protocols
+        (fold_left (fun acc pn =>
+                      fold_left (fun acc2 nm =>
+                                   match pod_named_port (p_ports p) nm with
+                                   | Some (pr, n) => if proto_eqb pr (fst pn) && negb (n =? NoPort)
+                                                     then cs_replace_named acc2 (fst pn) nm n
+                                                     else cs_replace_named acc2 (fst pn) nm NoPort
+                                   | None => cs_replace_named acc2 (fst pn) nm NoPort
+                                   end) (snd pn) acc) named c)
+  end.
 
 Definition cluster_wide (sel : list netpol) (p : pod) (ingress : bool) : connset :=
   fold_left (fun acc np =>
@@ -295,6 +307,71 @@ Definition np_dir_conns_x (np : netpol) (src dst : peer) (ingress : bool) : outc
   if cs_all (pe_ext e) then Ok (pe_ext e)
   else if cs_all (pe_cw e) && negb (peer_is_ip (if ingress then src else dst)) then Ok (pe_cw e)
   else np_dir_conns np src dst ingress.
+
+Fixpoint nps_union_conns_x (sel : list netpol) (src dst : peer) (ingress : bool) (acc : connset) : outcome connset :=
+  match sel with
+  | [] => Ok acc
+  | np :: t => do c <- np_dir_conns_x np src dst ingress; nps_union_conns_x t src dst ingress (cs_union acc c)
+  end.
+
+Definition np_layer_x (w : world) (src dst : peer) (ingress : bool) : outcome (option connset) :=
+  match (if ingress then dst else src) with
+  | PIP _ => Ok None
+  | PPod p _ =>
+      do sel <- selecting_nps (w_nps w) p (if ingress then Ingress else Egress);
+      match sel with
+      | [] => Ok None
+      | _ => do c <- nps_union_conns_x sel src dst ingress (cs_make false); Ok (Some c)
+      end
+  end.
+
+(* allAllowedXgressConnections when there are no admin policies (exposure mode rejects them) *)
+Definition xgress_conns_x (w : world) (src dst : peer) (ingress : bool) : outcome connset :=
+  do npc <- np_layer_x w src dst ingress;
+  Ok (match npc with Some c => c | None => cs_make true end).
+
+Definition all_conns_x (w : world) (src dst : peer) : outcome connset :=
+  if pod_to_itself src dst then Ok (cs_make true)
+  else
+    do eg <- xgress_conns_x w src dst false;
+    if cs_isempty eg then Ok eg
+    else do ing <- xgress_conns_x w src dst true;
+         Ok (cs_inter eg ing).
+
+Definition pair_conns_x (w : world) (s d : mpeer) : outcome connset :=
+  do sp <- eval_peer w s;
+  do dp <- eval_peer w d;
+  all_conns_x w sp dp.
+
+(* getConnectionsBetweenPeers, the rows between real peers, for any pair evaluation *)
+Fixpoint row_conns_g (pc : mpeer -> mpeer -> outcome connset) (s : mpeer) (ds : list mpeer) : outcome (list rentry) :=
+  match ds with
+  | [] => Ok []
+  | d :: t =>
+      if include_pair "" s d
+      then do c <- pc s d;
+           do rest <- row_conns_g pc s t;
+           Ok (if cs_isempty c then rest else mkRE (mp_r s) (mp_r d) c :: rest)
+      else row_conns_g pc s t
+  end.
+Fixpoint all_rows_g (pc : mpeer -> mpeer -> outcome connset) (ss ds : list mpeer) : outcome (list rentry) :=
+  match ss with
+  | [] => Ok []
+  | s :: t => do a <- row_conns_g pc s ds; do b <- all_rows_g pc t ds; Ok (a ++ b)
+  end.
+
+Definition list_world_g (pc : mpeer -> mpeer -> outcome connset) (w : world) : outcome list_result :=
+  match w_pods w with
+  | [] => Ok (mkLR [] [] false)
+  | _ =>
+      if negb (owners_consistent (w_pods w)) then Err (ErrConflict cf_owner_labels)
+      else
+        do blocks <- referenced_blocks (w_nps w);
+        let peers := mpeers_of w (ip_partition blocks) in
+        do es <- all_rows_g pc peers peers;
+        Ok (mkLR es (map mp_r peers) false)
+  end.
+Definition list_world_x (w : world) : outcome list_result := list_world_g (pair_conns_x w) w.
 
 (* ---------- exposure entries ---------- *)
 Record xentry := mkXE { xe_cluster : bool; xe_nssel : selector; xe_podsel : selector; xe_conn : connset }.
@@ -360,7 +437,7 @@ Definition exposure_objs (os : list obj) : outcome xresult :=
     do w <- build_world os';
     do reps0 <- gen_reps (w_nps w) [];
     let reps := refine_reps w os reps0 in
-    do base <- list_world w "" false;
+    do base <- list_world_x w;
     match w_pods w with
     | [] => Ok (mkXR base [])
     | _ => do xs <- exposed_peers w reps (workloads_of (w_pods w) []);
